@@ -155,7 +155,7 @@ func load(o loadOpts) (*Prog, error) {
 		return nil, fmt.Errorf("only %d zrnt packages loaded, expected >= 10", len(p.Pkgs))
 	}
 	sort.Slice(p.Pkgs, func(i, j int) bool { return p.Pkgs[i].ID < p.Pkgs[j].ID })
-	p.Desugared = desugarSwitches(p)
+	p.Desugared = desugarLoopHeads(p) + desugarSwitches(p)
 	partlyWritten = map[types.Object]bool{}
 	for _, pk := range p.Pkgs {
 		info := pk.TypesInfo
